@@ -125,6 +125,14 @@ def correspondence(ctx, model_ok, tmp):
             forced = [("regcoll", (0, "R")), ("regcoll", (1, "R")), ("regcoll", (2, "T")), ("regcoll", (3, "T")), ("regcoll", (4, "C")),
                       ("regtype", (0, 0)), ("regtype", (1, rng.choice([0, 1, 2]))), ("regtype", (2, 2))]
             rng.shuffle(forced)
+        if h == 0:
+            # corpus (runs first, whatever the seed): the delicate sequences earlier findings and seeded changes turned on —
+            # a non-member sharing type + data ID with a member is disassociated (ignored) / associated (conflict); a member is
+            # re-associated (no-op); the twin is removed from the registry; a dimensionless type goes through the same
+            forced = [("regcoll", (0, "R")), ("regcoll", (1, "R")), ("regcoll", (2, "T")), ("regcoll", (3, "T")), ("regtype", (0, 0)), ("regtype", (2, 2)),
+                      ("insert", (0, 1, 0)), ("insert", (0, 1, 1)), ("insert", (0, 2, 0)), ("insert", (2, 0, 0)), ("insert", (2, 0, 1)),
+                      ("assoc", (2, [1, 3])), ("disassoc", (2, [2])), ("assoc", (2, [2])), ("assoc", (2, [1])), ("assoc", (3, [2, 4])),
+                      ("disassoc", (3, [5, 1])), ("assoc", (3, [5])), ("disassoc", (2, [1])), ("assoc", (2, [2])), ("rmds", ([1],)), ("disassoc", (2, [3, 2]))]
         n_steps = rng.randint(15, 45) + len(forced)
         for step in range(n_steps):
             c = None
@@ -146,7 +154,7 @@ def correspondence(ctx, model_ok, tmp):
             params = None
             if forced:
                 kind, params = forced.pop(0)
-                r = 0.07 if kind == "regcoll" else 0.18
+                r = {"regcoll": 0.07, "regtype": 0.18, "insert": 0.3, "assoc": 0.6, "disassoc": 0.7, "rmds": 0.8}[kind]
             want = None  # oracle's expected reply class
             if r < 0.14:
                 c, k = params or (rng.randrange(NC), rng.choice("RRTTC"))
@@ -173,6 +181,8 @@ def correspondence(ctx, model_ok, tmp):
                 t, c = rng.randrange(NT), pick_coll("R", 0.8)
                 k = rng.choice(keys_for(t))
                 use_put = rng.random() < 0.3
+                if params:
+                    (t, k, c), use_put = params, False
                 line = f"reg insert {next_id} {t} {k} {c}"
                 if t not in o_types:
                     want = "err MissingDatasetTypeError"
@@ -233,6 +243,8 @@ def correspondence(ctx, model_ok, tmp):
                     ids = rng.sample(ids, min(len(ids), rng.choice([0, 1, 2]))) + [rng.choice(clashing(c))]
                     ids = list(dict.fromkeys(ids))
                     rng.shuffle(ids)
+                if params:
+                    c, ids = params
                 line = f"reg assoc {c} " + (",".join(map(str, ids)) or "-")
                 if c not in o_colls:
                     want = "err MissingCollectionError"
@@ -266,6 +278,8 @@ def correspondence(ctx, model_ok, tmp):
                 if clashing(c) and rng.random() < 0.5:
                     # a non-member that shares dataset type and data ID with a member: must be ignored
                     ids = [rng.choice(clashing(c))]
+                if params:
+                    c, ids = params
                 line = f"reg disassoc {c} " + ",".join(map(str, ids))
                 if c not in o_colls:
                     want = "err MissingCollectionError"
@@ -281,6 +295,8 @@ def correspondence(ctx, model_ok, tmp):
                     out = classify(e)
             elif r < 0.84 and refs:
                 ids = rng.sample(sorted(refs), min(len(refs), rng.choice([1, 1, 2])))
+                if params:
+                    (ids,) = params
                 line = "reg rmds " + ",".join(map(str, ids))
                 if any(i in o_stored for i in ids):
                     want = "err OrphanedRecordError"
@@ -456,6 +472,44 @@ def correspondence(ctx, model_ok, tmp):
                                  {"kind": "history", "ops": ops})
                         # uniqueness as observed
                     ctx.evaluations += 1
+            # ---- the registry's own tables (read from the SQLite file): dataset rows, tag rows and collection rows are exactly what
+            # the history says; the per-collection summaries (which queries use to skip collections) cover every membership
+            if full_probe:
+                from vlib import regtables
+
+                snap = regtables.snapshot(os.path.join(tmp, "r"))
+                mine = lambda name: name.endswith(f"_{h}")  # noqa: E731
+                hexof = {i: rf.id.hex for i, rf in refs.items()}
+                num = {v: k for k, v in hexof.items()}
+                want_ds = {hexof[i]: (tname(t), cname(c_)) for i, (t, k_, c_) in o_ds.items()}
+                got_ds = {d: v for d, v in snap["datasets"].items() if mine(v[1])}
+                want_tags = {(cname(c_), hexof[i], tname(t)) for c_ in o_colls for t in range(NT) for i in o_members(c_, t)}
+                got_tags = {x for x in snap["tags"] if mine(x[0])}
+                kinds_num = {1: "R", 2: "T", 3: "C"}
+                got_colls = {n: kinds_num.get(k_, str(k_)) for n, k_ in snap["collections"].items() if mine(n)}
+                want_colls = {cname(c_): k_ for c_, k_ in o_colls.items()}
+                problems = []
+                if got_ds != want_ds:
+                    problems.append(f"dataset table: rows for datasets {sorted(num.get(d, d) for d in set(got_ds) ^ set(want_ds)) or [num.get(d, d) for d in got_ds if got_ds[d] != want_ds.get(d)]} "
+                                    "differ from the registered datasets")
+                if got_tags != want_tags:
+                    problems.append(f"tag tables: unexpected rows {sorted((c_, num.get(d, d)) for c_, d, _ in got_tags - want_tags)[:4]}, missing rows "
+                                    f"{sorted((c_, num.get(d, d)) for c_, d, _ in want_tags - got_tags)[:4]}")
+                if got_colls != want_colls:
+                    problems.append(f"collection table: {got_colls}, the history registered {want_colls}")
+                if snap["dangling_datasets"]:
+                    problems.append(f"dataset rows without type or run: {snap['dangling_datasets'][:3]}")
+                for c_, d, tn in got_tags & want_tags:
+                    if (c_, tn) not in snap["summary_types"]:
+                        problems.append(f"collection {c_} holds a {tn} dataset but its summary does not list the dataset type")
+                        break
+                    inst = refs[num[d]].dataId.get("instrument")
+                    if inst is not None and (c_, inst) not in snap["summary_instrument"]:
+                        problems.append(f"collection {c_} holds a dataset of instrument {inst} but its summary does not list the instrument")
+                        break
+                ctx.count("table-snapshots")
+                if problems:
+                    viol(f"after {ops[-5:]}: " + "; ".join(problems[:3]), f"tables:{ops}", {"kind": "history", "ops": ops, "problems": problems})
         if {"refused", "accepted"} <= flags:
             ctx.nontrivial.add(tuple(ops))
         ctx.sample(ops[:12], cap=3)
